@@ -93,24 +93,27 @@ def run(prop, tier):
         build = Build()
         extra = ['-DVERIF_OVNI_C="%s"' % os.path.join(REPO, "src/rt/ovni.c")]
         exe = build.harness("plain", "sched_driver", ["sched_driver.c"], extra=extra, link_extra=["-ldl"])
+        # the same driver with a 97-byte staging buffer: scenario b then flushes automatically inside ovni_ev_emit
+        exe_small = build.harness("plain", "sched_driver_b97", ["sched_driver.c"], extra=extra + ["-DVERIF_BUFSZ=97"], link_extra=["-ldl"])
         bounds = [2] if tier == "quick" else [2, 3]
         completed_bound = 0
         for bound in bounds:
             caps_before = len(ctx.cov["caps_hit"])
-            configs = [("a", "d"), ("b", "d"), ("b", "t"), ("c", "d"), ("c", "t"), ("d", "d")]
+            configs = [("a", "d", exe), ("b", "d", exe), ("b", "t", exe), ("c", "d", exe), ("c", "t", exe), ("d", "d", exe), ("b", "d", exe_small)]
             if tier != "quick":
-                configs += [("a", "t"), ("d", "t")]
-            for (sc, mode) in configs:
+                configs += [("a", "t", exe), ("d", "t", exe), ("b", "t", exe_small)]
+            for (sc, mode, xe) in configs:
+                small = xe is exe_small
                 if ctx.out_of_time(0.8):
                     ctx.cap("scenario %s/%s not started" % (sc, mode))
                     continue
                 # root execution and first-level split
-                srv0 = Server(exe, scratch.sub("srv0"))
+                srv0 = Server(xe, scratch.sub("srv0"))
                 pts, verdict, outcome = srv0.run(sc, mode, [])
                 srv0.close()
                 if verdict != "ok":
                     ctx.violation("scenario %s (%s) mode %s, default schedule: %s" % (sc, SCEN[sc], mode, verdict),
-                                  {"engine": "E2 sched_driver", "scenario": sc, "mode": mode, "schedule": []}, {"kind": "schedule", "scenario": sc})
+                                  {"engine": "E2 sched_driver", "scenario": sc, "mode": mode, "schedule": [], "small_buffer": small}, {"kind": "schedule", "scenario": sc})
                     continue
                 roots = []
                 for i, (n, re_, ch) in enumerate(pts):
@@ -122,7 +125,7 @@ def run(prop, tier):
                 t_end = ctx.t0 + ctx.deadline_s * 0.75
 
                 def work(root):
-                    srv = Server(exe, os.path.join(scratch.dir, "w%d" % os.getpid()))
+                    srv = Server(xe, os.path.join(scratch.dir, "w%d" % os.getpid()))
                     try:
                         return explore_subtree(srv, sc, mode, root, bound, per_budget, t_end)
                     finally:
@@ -138,12 +141,12 @@ def run(prop, tier):
                     anycap = anycap or capped
                     for (prefix, verdict, outcome) in viol:
                         ctx.violation("scenario %s (%s) mode %s: %s [schedule %s]" % (sc, SCEN[sc], mode, verdict, prefix),
-                                      {"engine": "E2 sched_driver", "scenario": sc, "mode": mode, "schedule": prefix, "outcome": outcome},
+                                      {"engine": "E2 sched_driver", "scenario": sc, "mode": mode, "schedule": prefix, "outcome": outcome, "small_buffer": small},
                                       {"kind": "schedule", "scenario": sc})
                 if anycap:
                     ctx.cap("scenario %s/%s: per-subtree budget of %d executions or the deadline reached; bound %d is complete for the scenarios listed before it" % (sc, mode, per_budget, bound))
                 ctx.add(evaluations=total, transitions=total, states=total)
-                ctx.part("sched-%s-%s-b%d" % (sc, mode, bound), what=SCEN[sc], schedules=total, preemption_bound=bound, max_points=maxp,
+                ctx.part("sched-%s%s-%s-b%d" % (sc, "97" if small else "", mode, bound), what=SCEN[sc] + (" (97-byte staging buffer: automatic flush)" if small else ""), schedules=total, preemption_bound=bound, max_points=maxp,
                          distinct_outcomes=sorted(outcomes))
                 ctx.sample({"scenario": sc, "mode": mode, "schedule": roots[len(roots) // 2] if roots else []})
 
@@ -153,15 +156,16 @@ def run(prop, tier):
         # ---- free-running ThreadSanitizer pass of the same bodies (supporting evidence for the choice of scheduling points)
         try:
             texe = build.harness("tsan", "sched_driver_tsan", ["sched_driver.c"], extra=extra + ["-DVERIF_NOSCHED"], link_extra=["-ldl"])
+            texe_small = build.harness("tsan", "sched_driver_tsan_b97", ["sched_driver.c"], extra=extra + ["-DVERIF_NOSCHED", "-DVERIF_BUFSZ=97"], link_extra=["-ldl"])
             runs = 40 if tier == "quick" else 400
-            jobs = [(sc, mode, k) for (sc, mode) in (("a", "d"), ("b", "d"), ("b", "t"), ("d", "d")) for k in range(runs // 4)]
+            jobs = [(sc, mode, k) for (sc, mode) in (("a", "d"), ("b", "d"), ("b", "t"), ("d", "d"), ("B", "d")) for k in range(runs // 4)]
 
             def trun(j):
                 sc, mode, k = j
                 d = os.path.join(scratch.dir, "t%d" % os.getpid())
                 shutil.rmtree(d, ignore_errors=True)
                 os.makedirs(d)
-                r = subprocess.run([texe, d, sc, mode], stdout=subprocess.PIPE, stderr=subprocess.PIPE,
+                r = subprocess.run([texe_small if sc == "B" else texe, d, sc.lower(), mode], stdout=subprocess.PIPE, stderr=subprocess.PIPE,
                                    env=dict(os.environ, TSAN_OPTIONS="exitcode=66:halt_on_error=0"), timeout=120)
                 err = r.stderr.decode("latin1")
                 races = re.findall(r"WARNING: ThreadSanitizer: data race.*?\n(?:.*\n){0,12}", err)
@@ -178,7 +182,7 @@ def run(prop, tier):
             ctx.part("tsan", skipped=str(e)[:200])
         ctx.cov["traces_validated_against_impl"] = ctx.cov["evaluations"]
         ctx.cov["rule"] = ("every schedule with at most %d preemptions of the scenarios a-d (direct and OVNI_TMPDIR mode) on the real libovni (thorough: bound 2 completely first, then bound 3 as far as the deadline allows); scheduling points "
-                           "at every atomic operation and every mkdir/open/fopen/remove/rmdir/opendir plus the API entries; each execution in a fresh process "
+                           "at every atomic operation and every mkdir/open/write/fopen/fread/fwrite/remove/rmdir/opendir plus the API entries; scenario b also with a 97-byte staging buffer (automatic flush inside emit); each execution in a fresh process "
                            "with its own trace directory; oracle: exactly one proc_init/proc_fini returns, losers are refused, an admitted thread's stream.obs "
                            "and stream.json are byte-identical to what the same script writes when it runs alone; failures are replayed twice" % bounds[-1])
         ctx.cov["distinct_nontrivial"] = ctx.cov["states"]
